@@ -162,7 +162,11 @@ def split_known(rep: Report) -> tuple:
         for k in known:
             # `why_contains` narrows an entry to one kind of violation of the rule at that
             # construct (a different violation of the same rule there is still reported)
-            if k.get("rule") == v.rule and k.get("function") == v.function and canon_stmt(k.get("stmt", "")) == canon_stmt(v.stmt) and k.get("why_contains", "") in v.why:
+            # `any_statement` (only together with why_contains): the finding is this KIND of
+            # violation of the rule in this function, however the statement is spelled - a
+            # refactoring of the function that keeps the defect keeps the finding
+            same_stmt = canon_stmt(k.get("stmt", "")) == canon_stmt(v.stmt) or (k.get("any_statement") and k.get("why_contains"))
+            if k.get("rule") == v.rule and k.get("function") == v.function and same_stmt and k.get("why_contains", "") in v.why:
                 match = k
                 break
         (listed if match else unlisted).append((v, match))
